@@ -463,6 +463,8 @@ class ForceMatrix:
         return mprime, b, max_index
 
     def set_velocity_matrix(self, timeseries: Union[str, list] = None, **kwargs):
+        # same floating point error handling on every thread (np.seterr is thread-local)
+        np.seterr(all='raise')
         vector_of_vectors = []
         b = np.zeros((self.matrix.shape[0], 1))
         b_matrix = kwargs.get("b_matrix", None)
